@@ -311,6 +311,13 @@ def run_C03(run):
     run.gen_and_replay("MC_Expr", consts(ec, Family="C03nested", MaxNodes=1 if q else 5, CatIds={3, 5, 7} if q else ALL_CAT), name="pos-nested", kind="sel-set")
     # (2b) XQueryVM2 on numeric predicates (position counters, positmap, merge rewrite, (path)[n] re-rooting)
     vm2_stage(run, {2, 3, 4, 5, 7}, "C03")
+    # the model reproduces the recorded finding KF-C03-1 (fractional numeric predicates truncated): TLC must refute the
+    # refinement without the exclusion
+    r = run.tlc("MC_VM2", consts(VM2_BASE, MaxNodes=3, UseCat=False, CatIds=set(), ElemNames={"a"}, TextVals=set(), HostAxes={"child"},
+                                 PredAxes={"child"}, Parts={2}), invariants=("VM2RefinesKF",), name="vm2-reproduces-KF-C03-1", out=False,
+                allow_violation=True)
+    if "Invariant VM2RefinesKF is violated" not in r["log"]:
+        raise ToolingError("XQueryVM2 no longer reproduces the recorded finding KF-C03-1")
     scale_stage(run, 3)
     # trace validation against the model on seeded larger documents (see C02 (5f)); other seed
     tr = run.drive("vm", 2500 if q else 30000, extra=["-nodes", "14"], seed_offset=100)
